@@ -84,6 +84,10 @@ def run_controls():
     if any(x.verdict == VIOLATED and x.func == 'ctl2.normalise_float' for x in o.items):
         bad.append('INPLACE-DIV fired on a float target')
     n += 1
+    o = Obligations('CTL')
+    sweeps.sorted_argument(ctx, o, ['ctl2.'])
+    expect('sorted-arg', o, 'SORTED-ARG', 'np.searchsorted(all_labels')
+    expect('sorted-arg-ok', o, 'SORTED-ARG', 'np.searchsorted(ref', want=False)
     from .props.c03 import putmask_values
     o = Obligations('CTL')
     putmask_values(ctx, o, prefix='ctl2.')
